@@ -43,6 +43,7 @@ type PStep struct {
 	Exec         bool   `json:"exec"`
 	AST          bool   `json:"ast"`
 	Tree         bool   `json:"tree"`
+	Pretty       bool   `json:"pretty,omitempty"`
 	AbortPred    int    `json:"abort_pred,omitempty"`
 	AbortAct     int    `json:"abort_act,omitempty"`
 	AbortPredSel uint32 `json:"abort_pred_sel,omitempty"`
@@ -67,6 +68,7 @@ type PCase struct {
 	FaultCfg     simrt.MemoFaultCfg `json:"fault_cfg"`
 	History      []string           `json:"history,omitempty"`
 	Marathon     json.RawMessage    `json:"c06_marathon,omitempty"`
+	Sweep        json.RawMessage    `json:"sweep,omitempty"`
 	Prog         *PProg             `json:"prog,omitempty"`
 	Clients      []PProg            `json:"clients,omitempty"`
 	SchedTape    []uint32           `json:"sched_tape,omitempty"`
@@ -313,6 +315,14 @@ func (i *zzInst[U]) ASTString() string {
 }
 
 func (i *zzInst[U]) TreeString() string { return i.p.SprintSyntaxTree() }
+
+func (i *zzInst[U]) PrettyTreeString() string {
+	var b strings.Builder
+	if n := i.p.AST(); n != nil {
+		n.PrettyPrint(&b, i.p.Buffer)
+	}
+	return b.String()
+}
 
 func (i *zzInst[U]) Callable() []int {
 	var out []int
